@@ -651,10 +651,11 @@ def arg_leaves(args):
 
 
 # ------------------------------------------------------------------ execution under perturbation
-def run_once(fn, args, poison, pseed, T, dec, scribble=()):
+def run_once(fn, args, poison, pseed, T, dec, scribble=(), iso=True):
     native.poison(poison, pseed)
     native.install_allocator()
-    native.gomp(T, T > 1, dec if T > 1 else None)
+    native.gomp(T, T > 1 and iso, dec if T > 1 else None)
+    native.gomp_stats(reset=True)
     native.reset_redzone()
     try:
         live = [clone(a) for a in args]
@@ -672,6 +673,7 @@ def run_once(fn, args, poison, pseed, T, dec, scribble=()):
             res = ('exc', type(e).__name__, str(e)[:120])
         after = arg_leaves(live)
         bad = native.redzone_bad()
+        sync = native.gomp_stats()['sync_seen']
     finally:
         native.gomp(1, False, None)
         native.uninstall_allocator()
